@@ -14,7 +14,7 @@ def run(tier, seed):
     t0 = time.time()
     vh = common.build_harness()
     v = Verdict("C13")
-    cov = {"checker_cmd": "tlc VersionedKey.tla (MC_VK_small, MC_VK_10, Edges_VK_10, Sim_VK_dense) + vh vk-edges",
+    cov = {"checker_cmd": "tlc VersionedKey.tla (MC_VK_small, MC_VK_10, Edges_VK_10, Sim_VK_dense) + vh vk-edges ; apalache-mc check VKInd.tla (inductive invariant)",
            "configs": {}}
     states = trans = 0
 
@@ -33,6 +33,18 @@ def run(tier, seed):
                      {"tlc": common.tlc_tail(r, 80)})
         elif not r["ok"]:
             raise ToolError("TLC failed on %s:\n%s" % (cfg, common.tlc_tail(r)))
+
+    # ---- unbounded in the reachable/unreachable sense: the inductive invariant over the dense block range (Apalache)
+    cinit = "ConstSmall" if tier == "quick" else "ConstReal"
+    ind = {}
+    for label, init, length in (("base", "Init", 0), ("step", "IndInit", 1)):
+        a = common.apalache("VKInd.tla", cinit, init, "IndInv", length, "vkind_" + label, timeout=600 if tier == "quick" else 3300)
+        ind[label] = {"wall_s": round(a["wall"], 1), "ok": a["ok"]}
+        if a["violated"]:
+            v.report("model:VKInd:%s" % label, "VKInd.tla: IndInv is not inductive (%s, %s)" % (label, cinit), {"apalache": a["out"][-3000:]})
+        elif not a["ok"]:
+            raise ToolError("apalache failed on VKInd (%s):\n%s" % (label, a["out"][-2500:]))
+    cov["configs"]["VKInd(" + cinit + ")"] = ind
 
     # ---- every transition of the data type on the real type
     edges_total = 0
